@@ -59,7 +59,7 @@ PROPS["C15"] = {
 PROPS["C06"] = {
     "level_text": "Theorems: the Combine fold equals last-matching-rule semantics for EVERY option list / pattern semantics / name; prefix matching is the '/'-boundary relation — proved also of prefixFilter.Filter as REGENERATED from git/ref_filter.go (checked index expression, short-circuit; never panics); @REFGROUP is group membership; the regenerated option table pairs --X/--no-X with the documented patterns. Correspondence: real RefGroupBuilder + pflag parsing + Finish + Categorize in-process vs model vs spec on generated configs x option sequences x reference sets; and the real binary end to end (e2e: selection options and ROOTs on generated repositories, the census must be the one over the specified selection). `Pins.Filter` (REGENERATED statements of git/ref_filter.go's ten combinator methods): `combine_shapes`, `evaluator_shapes`, `regexp_anchored_prefix_empty` — the filter algebra the model mirrors, and the `^(?:…)$` anchoring. `default_from_root_arguments` (regenerated statements): Finish(len(flags.Args()) == 0) turns a still-nil top-level filter into all / no references. **Regular expressions**: `Spec/Regex` DEFINES what it means for an expression to match the entire name (`FullMatch`, a denotation with context-sensitive `^`/`$`) and what `MatchString` does (`Search`); `regexp_entire_name`: the executable matcher (Brzozowski derivatives with anchors) decides `FullMatch` for every expression and name; `regexp_anchoring_selects_full_matches`: searching for `^(?:r)$` succeeds iff `r` matches the entire name; `regexp_text_anchoring`: for every pattern p the RE2 reader accepts (as r), it reads the TEXT \"^(?:\" + p + \")$\" as an expression on which a search succeeds exactly for the names r matches entirely (the reader is compositional at a closing parenthesis: Proofs/RegexReader.ext_all); `naive_anchoring_differs` (the F1 witness). The `regex` engine judges the real git.RegexpFilter by that matcher (Go's regexp is the implementation there, not the oracle) and checks Go's oracle bits used by `refs` against it.",
     "level_note": "Trusted: Lean kernel; Go's regexp (full-match oracle computed independently of git-sizer); pflag's in-order Set calls (exercised, not modelled); model tied to internal/refopts and git/ref_filter.go by differential testing.",
-    "technique": "Lean 4 proof (fold induction) + regenerated option table + differential correspondence",
+    "technique": "Lean 4 proof (fold induction; regular-expression full match: derivative matcher proved correct, RE2 reader proved compositional) + regenerated option table and prefix filter + differential correspondence",
     "modules": ["GitSizer.Props.C06", "GitSizer.Props.Pins.Filter"],
     "engines": [{"name": "refs", "quick": 12000, "thorough": 1200000, "per_shard": 3000},
                 {"name": "e2e", "quick": 160, "thorough": 8000, "per_shard": 20},
@@ -70,7 +70,7 @@ PROPS["C06"] = {
 PROPS["C07"] = {
     "level_text": "Theorems: collectSymbols returns exactly the declared membership (own rules and all ancestors' rules; rule-less group = union of subgroups; Other bucket iff no subgroup matched) for EVERY forest (mutual induction over the rose tree); untraversed references get only 'ignored'; Categorize = specification. Correspondence as for C06 plus Groups() order and names; rendering of deep hierarchies is checked by the output engine (C11/C19). `Pins.Group` (REGENERATED statements of refGroup.collectSymbols): `collect_branches`, `pinned`. `symbol_hierarchy_source`: `splitKey` and `parentName` as TRANSLATED from internal/refopts/ref_group_builder.go on this run equal the model's (cut at the LAST '.') for every byte string and never panic.",
     "level_note": "Trusted: as C06. One recorded finding (F10: reserved symbol names).",
-    "technique": "Lean 4 proof (mutual structural induction) + differential correspondence",
+    "technique": "Lean 4 proof (mutual structural induction; splitKey / parentName translated from the source and proved equal to the model) + differential correspondence",
     "modules": ["GitSizer.Props.C07", "GitSizer.Props.Pins.Group"],
     "engines": [{"name": "refs", "quick": 12000, "thorough": 1200000, "per_shard": 3000}, {"name": "output", "quick": 1200, "thorough": 120000, "per_shard": 200}, {"name": "config", "quick": 3000, "thorough": 300000, "per_shard": 750}, {"name": "e2e", "quick": 160, "thorough": 8000, "per_shard": 20}],
     "rule": "same generator as C06; symbols compared as multisets per reference, Groups() exactly; e2e: the real binary on generated repositories whose reference sets include symbolic references, names with Unicode spaces, ~3-KiB names, tags shadowing other namespaces (reference count = number of references; no failure).",
